@@ -5,7 +5,10 @@ import (
 	"fmt"
 	"os"
 	"path/filepath"
+	"runtime"
 	"strings"
+	"sync"
+	"sync/atomic"
 	"time"
 
 	"github.com/kercylan98/vivid/internal/cluster"
@@ -320,8 +323,11 @@ func checkC16(c *core.Ctx) {
 			evals += 3
 		}
 	}
+	largeMerge, concurrentWire := vvLargeMerge(), vvConcurrentWire()
+	evals += 8
 	tables := map[string]any{"n": n, "nodes": dom.Nodes, "k": dom.K, "vecs": dom.Vecs,
-		"cmp": cmp, "merge": mrg, "rt": rt, "inc": inc, "mutated": mutated, "mergeWire": mrgWire, "longIds": longIds}
+		"cmp": cmp, "merge": mrg, "rt": rt, "inc": inc, "mutated": mutated, "mergeWire": mrgWire, "longIds": longIds,
+		"largeMerge": largeMerge, "concurrentWire": concurrentWire}
 	tb, _ := json.Marshal(tables)
 	if err := os.WriteFile(filepath.Join(dir, "tables.json"), tb, 0o644); err != nil {
 		c.Broken("tables.json: %v", err)
@@ -401,4 +407,73 @@ func tailOf(r *tlc.Result) string {
 		o = o[len(o)-3000:]
 	}
 	return o
+}
+
+// vvLargeMerge: "any set of node ids" includes large ones.  Two vectors with 40 000 ids each, disjoint, and a small third
+// one; the observations that fail are counted: the merge holds every id of both, it is an upper bound of both, both
+// orders give the same vector, a later merge with the small vector keeps everything.
+func vvLargeMerge() int {
+	mk := func(prefix string, n int) cluster.VersionVector {
+		// through the real reader (Increment copies the vector: 40 000 of them would take minutes)
+		nodes := make([]string, n)
+		ranks := map[string]int{}
+		for i := range nodes {
+			nodes[i] = fmt.Sprintf("%s-%05d", prefix, i)
+			ranks[nodes[i]] = 0
+		}
+		v, err := vvBuild(nodes, ranks, []uint64{1})
+		if err != nil {
+			return cluster.NewVersionVector()
+		}
+		return v
+	}
+	a, b, small := mk("a", 40000), mk("b", 40000), mk("c", 3)
+	fails := 0
+	ab, ba := a.Merge(b), b.Merge(a)
+	if ab.Size() != 80000 || ba.Size() != 80000 {
+		fails++
+	}
+	le := func(o cluster.VersionOrder) bool { return o == cluster.VersionBefore || o == cluster.VersionEqual }
+	if !le(a.Compare(ab)) || !le(b.Compare(ab)) {
+		fails++
+	}
+	if ab.Compare(ba) != cluster.VersionEqual {
+		fails++
+	}
+	if abc := ab.Merge(small); abc.Size() != 80003 || !le(small.Compare(abc)) || abc.Compare(small.Merge(ab)) != cluster.VersionEqual {
+		fails++
+	}
+	return fails
+}
+
+// vvConcurrentWire: vectors are serialised from many goroutines at once (gossip does); every goroutine round-trips its own
+// vector many times and counts the results that differ from what it wrote.
+func vvConcurrentWire() int {
+	var fails atomic.Int64
+	var wg sync.WaitGroup
+	for g := 0; g < 48; g++ {
+		wg.Add(1)
+		go func(g int) {
+			defer wg.Done()
+			v := cluster.NewVersionVector()
+			for i := 0; i < 400; i++ {
+				v = v.MustIncrement(fmt.Sprintf("g%03d-%04d", g, i))
+			}
+			for r := 0; r < 60; r++ {
+				w := messages.NewWriter()
+				if err := cluster.WriteVersionVector(w, v); err != nil {
+					fails.Add(1)
+					continue
+				}
+				rd := messages.NewReader(w.Bytes())
+				back, err := cluster.ReadVersionVector(rd)
+				if err != nil || back.Compare(v) != cluster.VersionEqual || back.Size() != v.Size() {
+					fails.Add(1)
+				}
+				runtime.Gosched()
+			}
+		}(g)
+	}
+	wg.Wait()
+	return int(fails.Load())
 }
